@@ -1,15 +1,15 @@
 #!/bin/bash
-# usage: try_mutant.sh <patch.diff> <PROP-ID>... ; applies the patch to /repo, runs the quick checks, reverts.
+# usage: try_mutant.sh <patch.diff> <PROP-ID>... ; applies the patch to /repo, runs the checks, reverts.
 patch="$1"; shift
 cd /repo || exit 2
-if ! git apply --check "$patch" 2>/dev/null; then
-  if ! git apply --3way --check "$patch" 2>/dev/null; then echo "PATCH DOES NOT APPLY: $patch"; exit 3; fi
-fi
-git apply "$patch" || git apply --3way "$patch" || exit 3
-trap 'cd /repo && git checkout -- . && git status --short | head -3' EXIT
+if [ -n "$(git status --porcelain --untracked-files=no)" ]; then echo "/repo is dirty"; exit 2; fi
+if git apply --check "$patch" 2>/dev/null; then git apply "$patch"
+elif git apply --3way "$patch" 2>/dev/null && [ -z "$(git diff --name-only --diff-filter=U)" ]; then git reset -q
+else git reset -q --hard HEAD; echo "PATCH DOES NOT APPLY: $patch"; exit 3; fi
+trap 'cd /repo && git reset -q --hard HEAD && git status --short | head -3' EXIT
 cd /verif
 for id in "$@"; do
-  echo "=== $id with $(basename $patch)"
-  timeout 900 ./check "$id" --tier "${TIER:-quick}" 2>&1 | grep -v "^KNOWN-FINDING" | tail -${TAIL:-6}
+  echo "=== $id with $patch"
+  timeout ${TMO:-900} ./check "$id" --tier "${TIER:-quick}" 2>&1 | grep -v "^KNOWN-FINDING" | tail -${TAIL:-6} | cut -c1-${CUT:-260}
   echo "exit=${PIPESTATUS[0]}"
 done
